@@ -140,6 +140,11 @@ func verifPubSetup(cfg verifPubCfg) *verifPubWorld {
 	if w.authorIn {
 		orig = t.original(w.author)
 	}
+	if cfg.kind == verifKindChn && verifNondetBool("addressedByChannelName") {
+		// a regular subscriber may address the channel-enabled group by its channel spelling:
+		// expandTopicName routes chnX to the grpX subscription
+		orig = types.GrpToChn(t.name)
+	}
 	w.msg = &ClientComMessage{
 		Pub:       &MsgClientPub{Id: "req-1", Topic: orig, NoEcho: w.noEcho, Head: w.head, Content: w.content},
 		Id:        "req-1",
